@@ -5,7 +5,6 @@ func init() {
 		Assumptions: assume(
 			"metamorphic oracle: both programs are run by anko itself; a defect that affects the variable form and the chained form identically is invisible here (it belongs to C05/C06/C10/C01)",
 			"error messages are not compared (only error presence), except for the message of a thrown scalar",
-			"known finding excluded by construction and counted: a typed nil pointer that arrives as an interface value (slice element, Go result, interface-typed field) is not nil for ?? and for the comparisons of in/switch although the pointer variable is (isNil in vm/vm.go)",
 			"functions are compared by type only; channels by content, capacity and closed state; pointers by pointee content",
 		)})
 }
